@@ -16,7 +16,8 @@ EXPLANATION = (
     "counter and returns — no path back to the loop over the remaining blocks nor to the announced-header insertion — "
     "and the stored response was taken out first; R4 in insert_next_block_headers decode / context / validation / insert "
     "failures return without inserting, validation gates insertion, duplicates are skipped; R5 inventory of potential "
-    "trap sites reachable from the response processor in workspace code against a reviewed allow-list. "
+    "trap sites reachable from the response processor in workspace code against a reviewed allow-list; R6 the validator that "
+    "gates admission enforces header-then-body, the four body checks and uniqueness over all transactions (C12). "
     "Does NOT decide: the iff against an independent validity oracle; R5 is an inventory, not a proof of trap freedom.")
 RULES = {
     'R1': 'GATE(ValidationContext::new => push), GATE(validate_block => push); CALLERS(push, insert_block, extend)',
@@ -24,6 +25,7 @@ RULES = {
     'R3': 'reject arms of the response processor: counter + return, NOPATH to loop header / announced headers',
     'R4': 'announced headers: every failure returns before insert; GATE(validate_header => insert_next_block_header)',
     'R5': 'PANICS(REACH(maybe_process_response)) in workspace code ⊆ reviewed allow-list',
+    'R6': 'the block validator insert_block relies on enforces the body checks (= C12.R1-R3)',
 }
 ASSUMPTIONS = ['transaction-valid blocks (the property\'s stated domain): insert_outpoints\' expect on a missing input is outside the domain']
 SS = 'ic_btc_canister::state::SyncingState'
@@ -94,6 +96,11 @@ def run(ctx):
     r3(ctx)
     r4(ctx)
     r5(ctx)
+    # R6: "valid" includes the body checks: the validator insert_block relies on gates acceptance on the
+    # four body checks and on uniqueness over all transactions (shared with C12.R1-R3)
+    from sa.engine import SubCtx
+    from rules import c12
+    c12.run(SubCtx(ctx, {'R1': 'R6', 'R2': 'R6', 'R3': 'R6'}))
 
 
 def r2_outpoints(ctx):
